@@ -473,3 +473,69 @@ def ieee_design(repo):
     lines = [i for i, l in enumerate(pkg.split('\n')) if l.lower().startswith(('  type std_ulogic', '  subtype std_logic'))]
     return dict(name='ieee.std_logic_1164 with body, and a user of ?= on std_logic_vector', valid=True, incremental=True, site_lines=lines,
                 files=[('ieee', 'std_logic_1164.vhdl', pkg), ('ieee', 'std_logic_1164-body.vhdl', body), ('lib0', 'u.vhd', user)])
+
+USE_IN_DECL = """package enum_pkg is
+  type color_t is (red, green, blue);
+end package;
+
+use work.enum_pkg.all;
+
+package user_pkg is
+  constant c0 : boolean := 1 = 2;
+  constant c1 : boolean := red = green;
+end package;
+"""
+D_USE = dict(name='an enumeration type used through a use clause after another use of "="', valid=True, files=[('lib0', 'use_in_decl.vhd', USE_IN_DECL)])
+
+OVERLOAD = """entity over is
+end entity;
+
+architecture a of over is
+  function f (a : bit) return integer is
+  begin
+    if a = '1' then
+      return f('0');
+    end if;
+    return 0;
+  end function;
+  function f (a : integer) return integer is
+  begin
+    return a;
+  end function;
+  constant c : integer := f(1);
+  signal s : integer := f('1') + c;
+begin
+end architecture;
+"""
+D_OVER = dict(name='two overloaded functions, one of them recursive', valid=True, files=[('lib0', 'overload.vhd', OVERLOAD)])
+
+NESTED = """entity nest is
+end entity;
+
+architecture a of nest is
+  type color_t is (red, green, blue);
+  type pair_t is record
+    lo : natural;
+    mid : integer;
+    hi : positive;
+    flag : bit;
+  end record;
+  signal c : color_t;
+  signal y : bit;
+  constant init : pair_t := (flag => '0', others => 1);
+  constant zero : pair_t := (flag => '1', hi => 1, others => 0);
+begin
+  main : process (c)
+    type mode_t is (idle, busy);
+    variable m : mode_t;
+  begin
+    if c = green and m = idle then
+      y <= init.flag;
+    else
+      y <= zero.flag;
+    end if;
+  end process;
+end architecture;
+"""
+D_NEST = dict(name='operators of an outer enumeration inside a process with local types; record aggregates with others over differently named subtypes', valid=True,
+              files=[('lib0', 'nested.vhd', NESTED)])
